@@ -53,7 +53,8 @@ RT_TEXT = (" End to end: lexer_correct_model (the model of the whole macro pipel
            "the stream of the reference semantics) and generated_code_correct_model (the same for the generated code as syntax trees, GenCode.v). "
            "Tie: the macro's real token stream is translated into those trees on every run (harness/gencode.py) and must equal GenCode.gen_program run on the "
            "implementation's own dumped automata; crates/lexgen_util/src/lib.rs is translated method by method (gen/GenUtil.v) and proved equal to the "
-           "model's operations (GenUtilProofs.v); automata compared with the model's up to isomorphism; proved-sound certificate checkers on the dumped automata.")
+           "model's operations (GenUtilProofs.v); the program built from the implementation's dumped simplified DFA is verified to be the model's up to a renaming of "
+           "states by the proved-sound prog_iso_b (ProgIso.v: impl_program_correct, impl_generated_code_correct); proved-sound certificate checkers on the dumped automata.")
 RT_TECH = " + generated-code translator (token stream -> GenCode trees) + run-time library translated and proved equal"
 checks = []
 for pid in sorted(P):
